@@ -6,7 +6,7 @@ use std::sync::{Arc, Mutex};
 use std::time::Duration;
 
 use nexosim::model::{BuildContext, Context, InitializedModel, Model, ProtoModel};
-use nexosim::ports::{EventBuffer, EventSlot, EventSource, Output, Requestor};
+use nexosim::ports::{EventBuffer, EventSlot, EventSource, Output, Requestor, UniRequestor};
 use nexosim::simulation::{
     ActionKey, Address, ExecutionError, Mailbox, Scheduler, SchedulingError, SimInit, Simulation,
 };
@@ -518,7 +518,7 @@ pub struct SM {
     id: usize,
     spec: Arc<MSpec>,
     outs: Vec<Output<i64>>,
-    reqs: Vec<Requestor<i64, i64>>,
+    reqs: Vec<ReqPort>,
     keys: Vec<Option<ActionKey>>,
     log: Log,
 }
@@ -624,7 +624,10 @@ impl SM {
                 Op::Query(port, e) => {
                     let x = e.eval(v);
                     if *port < self.reqs.len() {
-                        let rs: Vec<i64> = self.reqs[*port].send(x).await.collect();
+                        let rs: Vec<i64> = match &mut self.reqs[*port] {
+                            ReqPort::Multi(r) => r.send(x).await.collect(),
+                            ReqPort::Uni(u) => u.send(x).await.into_iter().collect(),
+                        };
                         if !rs.is_empty() {
                             let s: Vec<String> = rs.iter().map(|r| r.to_string()).collect();
                             self.log
@@ -935,6 +938,39 @@ fn connect_src(src: &mut EventSource<i64>, c: &Conn, addrs: &[Address<SM>], spec
     }
 }
 
+/// A requestor port with exactly one connection is built as a `UniRequestor` (the single-connection port type) on
+/// ports chosen by a parity of the case: both port types must behave alike.
+pub enum ReqPort {
+    Multi(Requestor<i64, i64>),
+    Uni(UniRequestor<i64, i64>),
+}
+
+fn uni_req(q: &QConn, addrs: &[Address<SM>]) -> UniRequestor<i64, i64> {
+    let keep = q.keep;
+    let add = q.add;
+    let radd = q.radd;
+    macro_rules! go {
+        ($f:path) => {
+            match (keep, add, radd) {
+                (Keep::All, 0, 0) => UniRequestor::new($f, &addrs[q.model]),
+                (Keep::All, _, _) => {
+                    UniRequestor::with_map(move |x: &i64| *x + add, move |r: i64| r + radd, $f, &addrs[q.model])
+                }
+                _ => UniRequestor::with_filter_map(
+                    move |x: &i64| if keep.ok(*x) { Some(*x + add) } else { None },
+                    move |r: i64| r + radd,
+                    $f,
+                    &addrs[q.model],
+                ),
+            }
+        };
+    }
+    match q.rep {
+        0 => go!(SM::rep0),
+        _ => go!(SM::rep1),
+    }
+}
+
 fn connect_req(req: &mut Requestor<i64, i64>, q: &QConn, addrs: &[Address<SM>]) {
     let keep = q.keep;
     let add = q.add;
@@ -1018,12 +1054,16 @@ fn run_inner(case: &Case) -> String {
             outs.push(o);
         }
         let mut reqs = Vec::new();
-        for qs in &sp.reqs {
+        for (pi, qs) in sp.reqs.iter().enumerate() {
+            if qs.len() == 1 && (id + pi + case.cmds.len()) % 2 == 0 {
+                reqs.push(ReqPort::Uni(uni_req(&qs[0], &addrs)));
+                continue;
+            }
             let mut r = Requestor::default();
             for q in qs {
                 connect_req(&mut r, q, &addrs);
             }
-            reqs.push(r);
+            reqs.push(ReqPort::Multi(r));
         }
         sms.push(Some(SM {
             id,
